@@ -491,8 +491,9 @@ def pred_unit_variant_map_form(rec, doc):
     if st != "ok" or not parts: return False
     return _unit_map_read_as_string(rec.value, json.loads(parts[0]))
 
-def shared_variant_types(dump):
-    """[(tag member, {member names})] of the internally / adjacently tagged enums in which two variants hold ONE named type
+def shared_variant_types(dump, only=None):
+    """(`only`: the entry ids to look at — the part of the IR the type under test reaches)
+    [(tag member, {member names})] of the internally / adjacently tagged enums in which two variants hold ONE named type
     under the same member name (adjacent: the content member): typify names an inline subtype after the enum and the member,
     not the variant, so the second variant's subtype resolves (by name) to the type made for the first"""
     es = irutil.entries(dump); out = []
@@ -505,6 +506,7 @@ def shared_variant_types(dump):
     def_ids = {v for v in (dump.get("ref_to_id") or {}).values()}
     for eid, e in es.items():
         if e["kind"] != "enum" or not isinstance(e.get("tag"), dict): continue
+        if only is not None and eid not in only: continue
         if "adjacent" in e["tag"]:
             if eid not in def_ids: continue
             tg, ct = e["tag"]["adjacent"]
@@ -995,7 +997,7 @@ def run(ctx):
         if '"const"' in json.dumps({k: v for k, v in sch.items() if k != "definitions"} if isinstance(sch, dict) else sch) \
                 and "C05-const-ignored" in findings: return "C05-const-ignored"
         if (seen & flatten_unions(c.dump)) and "C05-anyof-flatten-accepts-any" in findings: return "C05-anyof-flatten-accepts-any"
-        pairs = shared_variant_types(c.dump)
+        pairs = shared_variant_types(c.dump, only=seen)
         for i in seen:
             e = es[i]
             if e["kind"] == "enum" and isinstance(e.get("tag"), dict):
